@@ -58,6 +58,16 @@ THEOREMS = [
     "Ffcx.LNodes.Fmt.parse_tokens_stmt",
     "Ffcx.LNodes.Fmt.roundtrip_stmt_C",
     "Ffcx.LNodes.Fmt.roundtrip_stmt_C_counterexample",
+    # numba statements (full): text -> lines -> tokens with NEWLINE/INDENT/DEDENT -> statement tree
+    "Ffcx.LNodes.Fmt.lex_render_nl",
+    "Ffcx.LNodes.Fmt.pyLines_logical",
+    "Ffcx.LNodes.Fmt.pyLines_enter",
+    "Ffcx.LNodes.Fmt.pyLines_leave",
+    "Ffcx.LNodes.Fmt.stmt_lex_py",
+    "Ffcx.LNodes.Fmt.parse_tokens_stmt_py",
+    "Ffcx.LNodes.Fmt.roundtrip_stmt_Py",
+    "Ffcx.LNodes.Fmt.roundtrip_stmt_Py_counterexample",
+    "Ffcx.LNodes.Fmt.roundtrip_stmt",
     # numba expressions (full)
     "Ffcx.LNodes.Fmt.lex_render_py",
     "Ffcx.LNodes.Fmt.pySeparated_pieces",
@@ -81,7 +91,8 @@ HELPER_FILES = ["FfcxProofs/Lemmas/" + f for f in (
     "FormatLit.lean", "FormatStmt.lean", "FormatPy.lean", "FormatEval.lean", "FormatShape.lean",
     "FormatStmtLex.lean", "FormatStmtParse.lean", "FormatStmtText.lean",
     "FormatPyParse.lean", "FormatPyRT.lean", "FormatPyRTCases.lean", "FormatPyRTAll.lean",
-    "FormatPyLex.lean", "FormatPySep.lean", "FormatPySepExpr.lean", "FormatPyShape.lean", "FormatPyNorm.lean")]
+    "FormatPyLex.lean", "FormatPySep.lean", "FormatPySepExpr.lean", "FormatPyShape.lean", "FormatPyNorm.lean",
+    "FormatPyStmtParse.lean", "FormatPyLines.lean", "FormatPyStmtLx.lean", "FormatPyStmtText.lean")]
 
 REAL, SCALAR, INT, BOOL = L.DataType.REAL, L.DataType.SCALAR, L.DataType.INT, L.DataType.BOOL
 
@@ -869,6 +880,16 @@ class Ctx:
         self.unrepresentable = 0
         self.viol_seen = set()
         self.in_kernels = {}
+        self.coverage = {}
+
+    def cover(self, kind, wf, label):
+        """How many evaluated trees satisfy the hypothesis (wfC / wfPy / wfS / wfSPy) of the full theorem."""
+        c = self.coverage.setdefault(kind, {"cases": 0, "hypothesis_holds": 0, "hypothesis_fails_in_kernels": []})
+        c["cases"] += 1
+        if wf:
+            c["hypothesis_holds"] += 1
+        elif label and "#" in str(label) and len(c["hypothesis_fails_in_kernels"]) < 5:
+            c["hypothesis_fails_in_kernels"].append(str(label))
 
     def violation(self, key, what, payload):
         where = (payload or {}).get("where")
@@ -912,6 +933,10 @@ def check_expr(cx, label, wt, e, scalars, do_py=True):
             chk.disagree("C formatter text: real vs Lean model", {"tree": sx, "scalar": sc, "impl": real, "model": model})
         lex_ok, rt_ok = r[2] == "true", r[3] == "true"
         model_wt = {"wellformed_wfC": r[4] == "true", "kind": r[5]}
+        cx.cover("expr-c", r[4] == "true", label)
+        if r[4] == "true" and not (lex_ok and rt_ok):  # the theorems say this cannot happen
+            chk.disagree("evaluation contradicts no_token_fusion / roundtrip_C (wfC holds, the model round trip fails)",
+                         {"tree": sx, "scalar": sc, "lean_lex_ok": lex_ok, "lean_roundtrip": rt_ok})
         want = lnodes_tuple(e, "c", sc)
         got = c_parse_expr(real)
         lits = []
@@ -954,6 +979,11 @@ def check_expr(cx, label, wt, e, scalars, do_py=True):
     if not in_sync:  # the search below runs on the REAL text regardless
         chk.disagree("numba formatter text: real vs Lean model", {"tree": sx, "impl": real, "model": r[1], "model_raises": model_raises})
     rt_ok = r[3] == "true"
+    wf_py = len(r) > 7 and r[7] == "true"
+    cx.cover("expr-py", wf_py, label)
+    if wf_py and not (r[2] == "true" and rt_ok):  # the theorems say this cannot happen
+        chk.disagree("evaluation contradicts no_token_fusion_py / roundtrip_Py (wfPy holds, the model round trip fails)",
+                     {"tree": sx, "lean_lex_ok": r[2], "lean_roundtrip": rt_ok})
     want = lnodes_tuple(e, "py")
     got = py_parse_expr(real)
     lits = []
@@ -1071,6 +1101,11 @@ def check_stmt(cx, label, s, scalars, do_py=True, localise=True):
                     chk.disagree(f"{lang} formatter statement text: real vs Lean model",
                                  {"stmt": sx[:600], "scalar": sc, "at": k, "impl": real[max(0, k - 60):k + 60], "model": r[1][max(0, k - 60):k + 60]})
             tok_ok, parse_ok = r[2] == "true", r[3] == "true"
+            wf_s = len(r) > 4 and r[4] == "true"
+            cx.cover(f"stmt-{lang}", wf_s, label)
+            if wf_s and not (tok_ok and parse_ok):  # the theorems say this cannot happen
+                chk.disagree(f"evaluation contradicts roundtrip_stmt_{'C' if lang == 'c' else 'Py'} (well-formed statement, the model round trip fails)",
+                             {"stmt": sx[:400], "scalar": sc, "lean_tokens_ok": tok_ok, "lean_parse_ok": parse_ok})
             want = lstmt_tuples(s, lang, sc)
             got = c_parse_stmts(real) if lang == "c" else py_parse_stmts(real)
             lits = []
